@@ -844,7 +844,21 @@ class FileStorage(
                 try:
                     tid = self._tid
                     if f is not None:
-                        f(tid)
+                        try:
+                            f(tid)
+                        except:  # noqa: E722 do not use bare 'except'
+                            # Nothing has been finished, and the caller
+                            # cannot abort a transaction we forget below:
+                            # take back what the vote wrote, as _abort()
+                            # does (we hold the write lock of the file pool
+                            # already, so empty it directly).
+                            if self._nextpos:
+                                self._file.truncate(self._pos)
+                                self._files.empty()
+                                self._nextpos = 0
+                            self._blob_tpc_abort()
+                            self._clear_temp()
+                            raise
                     self._finish(tid, *self._ude)
                     self._clear_temp()
                 finally:
